@@ -158,8 +158,14 @@ fn with_tid(req: &Value, tid: u64) -> Value {
 fn subst_self(v: &mut Value, client_id: &str) {
     match v {
         Value::String(s) => {
-            if s.contains("<SELF>") {
-                *s = s.replace("<SELF>", client_id);
+            if s.contains("<SELF") {
+                // alternative spellings of the own id that a UUID parser accepts
+                *s = s
+                    .replace("<SELF_UPPER>", &client_id.to_uppercase())
+                    .replace("<SELF_SIMPLE>", &client_id.replace('-', ""))
+                    .replace("<SELF_BRACED>", &format!("{{{client_id}}}"))
+                    .replace("<SELF_URN>", &format!("urn:uuid:{client_id}"))
+                    .replace("<SELF>", client_id);
             }
         }
         Value::Array(a) => a.iter_mut().for_each(|x| subst_self(x, client_id)),
